@@ -71,6 +71,7 @@ pub fn menu() -> Vec<(&'static str, ResourceRecord)> {
         ("A for a host only named by the foreign NS", rr(&dn("ns.evil."), a([6, 6, 6, 7]), 300)),
         ("SOA of z.t.", rr(&dn("z.t."), soa_data(&dn("mname.z.t."), 9, 60), 60)),
         ("SOA of bank.", rr(&dn("bank."), soa_data(&dn("mname.bank."), 9, 60), 60)),
+        ("CNAME cdn.z.t. -> q (closes an alias loop with the on-path CNAME)", rr(&dn("cdn.z.t."), cname(&q), 300)),
     ]
 }
 
@@ -301,6 +302,10 @@ fn run_direct(acc: &mut JsonAcc, qi: usize, mc: usize, first: Option<usize>, k: 
     let q = question(&qname(), QTYPES[qi]);
     for placed in placements(first, menu.len(), k) {
         let reply = build_reply(&q, &placed, &menu);
+        procpar::beat();
+        if acc.trace {
+            acc.announce(&json!({"kind": "direct", "qtype": u16::from(q.qtype), "match_count": mc, "placed": placed_json(&placed)}));
+        }
         let got = std::panic::catch_unwind(|| verif_validate_nameserver_response(&q, &reply, mc));
         acc.count("direct_calls", 1);
         let got = match got {
